@@ -248,14 +248,16 @@ def types(draw, ctx: Ctx, depth: int, tparams: Sequence[str] = (), qualifiers=Tr
     if top_qualifiers and cat != 'number' and name != 'void':
         const = draw(st.booleans()) and draw(st.booleans())
         ptr = draw(st.sampled_from(['', '', '', '*', '@', '&', '&']))
-        if prof.compilable and (cat in ('basic', 'enum') or name in ('string',)):
+        if prof.compilable and (cat == 'enum' or (not ns and name in M.BASIC) or
+                                name == 'string'):
             # pybind11 has no holder / pointer casters for fundamental types and strings
             ptr = '&' if ptr == '&' and const else ''
             if cat == 'enum':
                 ptr = ''
         if prof.compilable and inner:
             const = False  # standard containers cannot hold const or reference types
-            ptr = ptr if ptr == '*' and cat not in ('basic', 'enum', 'tparam') else ''
+            ptr = ptr if ptr == '*' and cat not in ('basic', 'enum', 'tparam') and \
+                not (not ns and name in M.BASIC) and name != 'string' else ''
         if prof.compilable and cat == 'tparam' and ptr in ('*', '@'):
             ptr = ''  # T may be instantiated with a fundamental type
         if prof.executable and ptr == '&' and not const and cat not in ('custom', 'this'):
@@ -284,6 +286,10 @@ def typed_default(draw, ctx, t: M.Type, tparams=()):
     for (p_, owner, en) in ctx.enums:
         full = p_ + ((owner,) if owner else ())
         if t.ns == full and t.name == en:
+            if owner and ctx.prof.executable:
+                # pybind11 converts defaults when the binding is registered, and a class's
+                # enums are registered after the class itself
+                return None
             vals = ctx.enum_values.get((p_, owner, en))
             if vals:
                 return '::'.join(full + (en, draw(st.sampled_from(list(vals)))))
@@ -331,6 +337,20 @@ def arg_lists(draw, ctx: Ctx, tparams=(), this=False, max_args=None, min_args=0)
             args = [replace(a, default=draw(st.sampled_from(DEFAULTS))) if m else a
                     for a, m in zip(args, mask)]
     return tuple(args)
+
+
+@st.composite
+def redefault(draw, ctx: Ctx, args, tparams=()):
+    """The same parameter list with a freshly drawn (suffix) set of typed defaults."""
+    out = []
+    ok = True
+    k = draw(st.integers(0, len(args)))
+    for i, a in enumerate(reversed(args)):
+        d = typed_default(draw, ctx, a.type, tparams) if (i < k and ok) else None
+        if d is None:
+            ok = False
+        out.append(replace(a, default=d))
+    return tuple(reversed(out))
 
 
 @st.composite
@@ -435,7 +455,10 @@ def _distinct_signatures(members):
         seen.add(key)
         out.append(m)
     names = {m.name for m in out if isinstance(m, M.Prop)}
-    return [m for m in out if not (isinstance(m, (M.Method, M.Static)) and m.name in names)]
+    out = [m for m in out if not (isinstance(m, (M.Method, M.Static)) and m.name in names)]
+    # pybind11 refuses one name for both static and instance methods
+    inst = {m.name for m in out if isinstance(m, M.Method)}
+    return [m for m in out if not (isinstance(m, M.Static) and m.name in inst)]
 
 
 @st.composite
@@ -464,7 +487,7 @@ def classes(draw, ctx: Ctx, path: Tuple[str, ...]):
     ctx.scoped_ok = set(class_ok)
     virtual = draw(st.booleans()) and draw(st.booleans())
     parent = None
-    if prof.parents and draw(st.integers(0, 3)) == 0:
+    if prof.parents and draw(st.integers(0, 1 if prof.executable else 3)) == 0:
         cands = ctx.classes()
         choice = draw(st.integers(0, 3))
         if cands and choice <= 1:
@@ -478,6 +501,7 @@ def classes(draw, ctx: Ctx, path: Tuple[str, ...]):
                                           if prof.compilable else FOREIGN_TYPES))
             parent = M.Type(ns, nm)
     members = []
+    last_args = [None]
     n = draw(st.integers(0, prof.max_members))
     mnames = _member_names(ctx)
     ctx.enum_types = [M.Type(path, en) for (p_, owner, en) in ctx.enums
@@ -521,6 +545,11 @@ def classes(draw, ctx: Ctx, path: Tuple[str, ...]):
             mname = draw(lower_name(mnames, prop_names | {name}))
             r = draw(rets(ctx, tps, this=True))
             a = draw(arg_lists(ctx, tps, this=True))
+            if prof.compilable and last_args[0] and mt is None and draw(st.integers(0, 3)) == 0:
+                # same parameter types and names as the previous callable, other defaults
+                a = draw(redefault(ctx, last_args[0], tps))
+            if mt is None:
+                last_args[0] = a
             if k == 'method':
                 is_const = draw(st.booleans())
                 if mname == 'print' and findings.is_open('F-33-print-must-be-const'):
